@@ -155,69 +155,50 @@ end C1Glue
 
 namespace C2Glue
 open QM.RefSem.C2
-
-def parseSub : Sx → Option Sub
-  | .list [.atom "b", .atom x] => some (.bind x)
-  | .list [.atom "w"] => some .wild
-  | .list [.atom "l", z, c] =>
-    match z.asInt, c.asNat with
-    | some z, some c => some (.lit z c)
-    | _, _ => none
-  | _ => none
-
-def parseSubs : List Sx → Option (List Sub)
-  | [] => some []
-  | s :: r =>
-    match parseSub s, parseSubs r with
-    | some s, some r => some (s :: r)
-    | _, _ => none
-
-def parsePat : Sx → Option Pat1
-  | .list [.atom "pt", s] => (parseSub s).map Pat1.top
-  | .list (.atom "ptup" :: ss) => (parseSubs ss).map Pat1.tup
-  | _ => none
+open QM.RefSem.C1 (Sub Pat1)
+open C1Glue (parsePat)
 
 mutual
-  partial def parseT : Sx → Option T1
+  partial def parseT : Sx → Option T2
     | .list [.atom "i", z, c] =>
       match z.asInt, c.asNat with
       | some z, some c => some (.int z c)
       | _, _ => none
     | .list [.atom "~"] => some .ripple
     | .list [.atom "v", .atom x] => some (.var x)
-    | .list [.atom "m", p] => (parsePat p).map T1.mtch
-    | .list (.atom "blk" :: bs) => (parseBrs bs).map T1.block
+    | .list [.atom "m", p] => (C1Glue.parsePat p).map T2.mtch
+    | .list (.atom "blk" :: bs) => (parseBrs bs).map T2.block
     | .list (.atom "t" :: id :: fs) =>
       match id.asNat, parseFs fs with
       | some id, some fs => some (.tup id fs)
       | _, _ => none
     | _ => none
-  partial def parseCh : Sx → Option Ch1
+  partial def parseCh : Sx → Option Ch2
     | .list (.atom "ch" :: ts) => parseTs ts
     | _ => none
-  partial def parseTs : List Sx → Option Ch1
+  partial def parseTs : List Sx → Option Ch2
     | [] => some .nil
     | t :: r =>
       match parseT t, parseTs r with
       | some t, some r => some (.cons t r)
       | _, _ => none
-  partial def parseFs : List Sx → Option Fs1
+  partial def parseFs : List Sx → Option Fs2
     | [] => some .nil
     | c :: r =>
       match parseCh c, parseFs r with
       | some c, some r => some (.cons c r)
       | _, _ => none
-  partial def parseSq : List Sx → Option Sq1
-    | [c] => (parseCh c).map Sq1.last
+  partial def parseSq : List Sx → Option Sq2
+    | [c] => (parseCh c).map Sq2.last
     | c :: r =>
       match parseCh c, parseSq r with
       | some c, some r => some (.cons c r)
       | _, _ => none
     | [] => none
-  partial def parseS : Sx → Option Sq1
+  partial def parseS : Sx → Option Sq2
     | .list (.atom "s" :: cs) => parseSq cs
     | _ => none
-  partial def parseBrs : List Sx → Option Brs1
+  partial def parseBrs : List Sx → Option Brs2
     | [] => some .nil
     | .list [.atom "br", c] :: r =>
       match parseS c, parseBrs r with
